@@ -1076,6 +1076,10 @@ def build_unit(unit, repo, variant=None, isolate=()):
     for spec in unit.ITEMS:
       if spec is None:
           continue
+      if spec.get('harness_only'):
+          # a function whose very signature is outside the verifier's subset (generic over std / num-traits traits): nothing is woven,
+          # the bounded harness of vc/bounded.py is its only check (vc/run.py runs it on every check)
+          continue
       _iid = spec.get('id') or _default_id(spec['path'])
       if _iid in isolate:
           spec = _isolated_spec(spec)
